@@ -234,7 +234,7 @@ where
 
 /// every sampler on every (range, first word); where all first words of the type are enumerated
 /// (BITS <= 24) the exact number of accepted words per value is counted as well
-fn one_range<T, C: refmodel::ZNum>(cfg: &str, low: T, high: T, words: &[Vec<u8>], all_words: bool, explore_rejections: bool, l: &mut Local)
+fn one_range<T, C: refmodel::ZNum>(cfg: &str, low: T, high: T, words: &[Vec<u8>], all_words: bool, explore_rejections: bool, only_k: Option<usize>, l: &mut Local)
 where
     T: Subj + SampleUniform + PartialOrd,
 {
@@ -245,6 +245,9 @@ where
     let mut counts: Vec<u32> = Vec::new();
     for k in 0..6 {
         if hp.is_none() && k % 2 == 1 {
+            continue;
+        }
+        if only_k.is_some() && only_k != Some(k) {
             continue;
         }
         if all_words {
@@ -315,7 +318,7 @@ where
     } else {
         let mut v = sets::structured_small(T::DIGIT_BITS, T::N, tier);
         v.extend(sets::smalls(nb));
-        mk(sets::dedup(v).into_iter().take(if bits <= 16 { 28 } else { 60 }).collect())
+        mk(sets::dedup(v).into_iter().take(if bits <= 16 { if tier == Tier::Thorough { 28 } else { 14 } } else { 60 }).collect())
     };
     let mut ranges: Vec<(T, T)> = Vec::new();
     for a in &vals {
@@ -332,7 +335,7 @@ where
     let l = par_chunks(threads, ranges.len(), |lo, hi, l| {
         for &(low, high) in &ranges[lo..hi] {
             let rej = bits == 8 && small.contains(&Subj::le(&low)) && small.contains(&Subj::le(&high));
-            one_range::<T, C>(&cfg, low, high, &words, all_words, rej, l);
+            one_range::<T, C>(&cfg, low, high, &words, all_words, rej, None, l);
         }
     });
     let label = if all_words { "ranges x ALL first words: membership + exact preimage counts (+ all second words after a rejection at 8 bits)" } else { "boundary ranges x boundary first words: membership" };
@@ -355,12 +358,13 @@ where
             }
         }
         v.dedup();
-        let take = if tier == Tier::Thorough { 15 } else { 4 };
+        let take = if tier == Tier::Thorough { 15 } else { 3 };
         let ur: Vec<(T, T)> = v.into_iter().take(take).map(|(a, b)| (T::from_z(&a), T::from_z(&b))).collect();
         let words = sets::full(24);
-        let l = par_chunks(threads, ur.len(), |lo, hi, l| {
-            for &(low, high) in &ur[lo..hi] {
-                one_range::<T, C>(&cfg, low, high, &words, true, false, l);
+        let l = par_chunks(threads, ur.len() * 6, |lo, hi, l| {
+            for i in lo..hi {
+                let (low, high) = ur[i / 6];
+                one_range::<T, C>(&cfg, low, high, &words, true, false, Some(i % 6), l);
             }
         });
         run.merge(config, "selected ranges x ALL 2^24 first words: membership + exact preimage counts", "ranges", ur.len() as u64 * 6 * (1u64 << 24), l);
